@@ -25,6 +25,12 @@ func main() {
 		verbose := fs.Bool("v", false, "verbose")
 		fs.Parse(os.Args[2:])
 		os.Exit(vc.RunCheck(vc.CheckOpts{Prop: *prop, Tier: *tier, Repo: *repo, Verif: *verif, Only: *only, Verbose: *verbose, Start: time.Now()}))
+	case "replay":
+		if len(os.Args) < 3 {
+			fmt.Fprintln(os.Stderr, "usage: gocv replay <file>")
+			os.Exit(2)
+		}
+		os.Exit(vc.RunReplayFile("/repo", "/verif", os.Args[2]))
 	default:
 		fmt.Fprintln(os.Stderr, "unknown command", os.Args[1])
 		os.Exit(2)
